@@ -15,7 +15,11 @@ for d in sorted(glob.glob("/verif/seeded/*/"), key=lambda p: (os.path.basename(p
     q = det.get("quick", {})
     res = q.get("result", "")
     first = re.sub(r"^.*violation lines;\s*", "", res)[:110].replace("|", "/")
-    rows.append("| %s | %s | %s | %s |" % (sid, title[:95].replace("|", "/"), "quick" if q.get("detected") else ("thorough" if det.get("thorough", {}).get("detected") else "NOT DETECTED"), first))
+    other = det.get("quick_other_property")
+    where = "quick" if q.get("detected") else ("thorough" if det.get("thorough", {}).get("detected") else ("quick of `%s`" % other["check"].split()[-2] if other else "NOT DETECTED"))
+    if other and not q.get("detected"):
+        first = other["result"][:110]
+    rows.append("| %s | %s | %s | %s |" % (sid, title[:95].replace("|", "/"), where, first))
 print("| seed | change | caught by `bin/check <prop>` at | first report |")
 print("|---|---|---|---|")
 print("\n".join(rows))
